@@ -105,6 +105,13 @@ def judge(case, part):
                       [expected, harness.native(expected_value)], [observed, harness.native(observed_value)])
         elif expected == "accept" and not fieldmodel.same_value(field_type, expected_value, observed_value):
             part.fail(tag % ("guard=%s wrong-value" % guard), narrowed, harness.native(expected_value), harness.native(observed_value))
+    for cell in reversed(case["cells"]):
+        first, _ = fieldmodel.validate(decl, cell)
+        again, _ = c02.observe_direct(field, cell, errors)
+        part.transitions += 1
+        if first is not None and again != first:
+            part.validated += 1
+            part.fail(tag % "verdict-changes-when-the-cell-is-validated-again", {"decl": case["decl"], "cells": [cell, cell]}, first, again)
     # the same cells through Cid rows + Reader.rows() in 'yield' mode: same verdicts, and the message names the field
     if decl["fmt"] in ("delimited", "fixed"):
         import cutplace
